@@ -25,7 +25,8 @@ var Profiles = map[string]func() Profile{
 		p.Name = "general"
 		p.W = wts(int(KNewEntity), 14, int(KNewBatch), 5, int(KAdd), 14, int(KRemove), 12, int(KExchange), 10, int(KSet), 5, int(KWrite), 8,
 			int(KSetRel), 5, int(KCopy), 4, int(KRemoveEntity), 8, int(KAddBatch), 4, int(KRemoveBatch), 4, int(KExchangeBatch), 3,
-			int(KSetRelBatch), 3, int(KRemoveEntities), 3, int(KReset), 1, int(KShrink), 3, int(KRegFilter), 1, int(KUnregFilter), 1)
+			int(KSetRelBatch), 3, int(KRemoveEntities), 3, int(KReset), 1, int(KShrink), 3, int(KRegFilter), 1, int(KUnregFilter), 1,
+			int(KMisuse), 4) // rejected calls in between: the next valid call must not see anything of them
 		p.FilterSlots = 3
 		return p
 	},
@@ -60,7 +61,8 @@ var Profiles = map[string]func() Profile{
 		p.Name = "relation"
 		p.W = wts(int(KNewEntity), 16, int(KNewBatch), 5, int(KAdd), 10, int(KRemove), 8, int(KExchange), 6, int(KWrite), 3,
 			int(KSetRel), 12, int(KCopy), 3, int(KRemoveEntity), 14, int(KAddBatch), 3, int(KRemoveBatch), 3, int(KExchangeBatch), 2,
-			int(KSetRelBatch), 6, int(KRemoveEntities), 7, int(KReset), 1, int(KShrink), 3, int(KRegFilter), 2, int(KUnregFilter), 1)
+			int(KSetRelBatch), 6, int(KRemoveEntities), 7, int(KReset), 1, int(KShrink), 3, int(KRegFilter), 2, int(KUnregFilter), 1,
+			int(KMisuse), 4)
 		p.RelPct = 95
 		p.HotComps = 6
 		p.TargetPool = 5
@@ -230,7 +232,9 @@ var Profiles = map[string]func() Profile{
 		p.Name = "gc"
 		p.W = wts(int(KNewEntity), 14, int(KNewBatch), 6, int(KAdd), 14, int(KRemove), 12, int(KExchange), 10, int(KSet), 6, int(KWrite), 8,
 			int(KSetRel), 5, int(KCopy), 5, int(KRemoveEntity), 10, int(KAddBatch), 4, int(KRemoveBatch), 4, int(KExchangeBatch), 3,
-			int(KSetRelBatch), 3, int(KRemoveEntities), 4, int(KReset), 1, int(KShrink), 4, int(KAddRes), 2, int(KRemoveRes), 2)
+			int(KSetRelBatch), 3, int(KRemoveEntities), 4, int(KReset), 1, int(KShrink), 4, int(KAddRes), 2, int(KRemoveRes), 2,
+			int(KOpenQuery), 4, int(KStepQuery), 3, int(KCloseQuery), 2) // finished query objects stay reachable (their slots): they must not pin column memory
+		p.QuerySlots = 4
 		p.HotFixed = []int{u.IPtr, u.ISlc, u.IStr, u.IMp, u.IIfc, u.IMix, u.IR2, u.IP8, u.IZ0, u.IR1, u.IFn}
 		p.RelPct = 60
 		p.MaxAlive = 70
